@@ -143,7 +143,10 @@ func (e *DepEngine) allocDeps(root *ssa.Alloc, addr ssa.Value, res DepSet, seen 
 				}
 			}
 		case ssa.CallInstruction:
-			// address passed to a call: the callee may write through it
+			// address passed to a call: the callee may write through it (builtins other than copy do not)
+			if bi, ok := r.Common().Value.(*ssa.Builtin); ok && bi.Name() != "copy" {
+				continue
+			}
 			for _, a := range r.Common().Args {
 				if a != addr {
 					e.walk(a, res, seen)
